@@ -415,3 +415,22 @@ Proof.
   - destruct (_ || _ || _); [left|right]; reflexivity.
   - destruct (_ || _); [left|right]; reflexivity.
 Qed.
+
+(* ---------------------------------------------------------------- end to end *)
+(* get_neighbors issued after ANY history (cache absent, freshly built, or built earlier and patched since)
+   answers exactly: the agents whose last assigned (wrapped) position is within the radius *)
+Theorem legacy_neighbors_end_to_end c ops q r ic a :
+  let s := l_final c l_init ops in
+  snd (lstep c s (LNeighbors q r ic)) = snd (lspec_step c (l_pos s) (LNeighbors q r ic)) /\
+  (In a (spec_neighbors c (l_pos s) q r ic) <->
+   exists p, fold_left (l_track c a) ops None = Some p /\
+             dist2 (lc_torus c) (lc_bounds c) p q <= r * r /\
+             (ic = true \/ 0 < dist2 (lc_torus c) (lc_bounds c) p q)).
+Proof.
+  cbn zeta. pose proof (legacy_cache_coherent c ops) as Hinv. split.
+  - destruct (lstep_sim c _ (LNeighbors q r ic) Hinv) as [_ H]. rewrite H. reflexivity.
+  - rewrite legacy_neighbors_exact. destruct Hinv as [_ [Hnd _]].
+    split; intros [p [H1 H2]]; exists p; (split; [|exact H2]).
+    + rewrite <- legacy_position_last_assigned. apply In_aget; assumption.
+    + rewrite <- legacy_position_last_assigned in H1. apply In_aget; assumption.
+Qed.
